@@ -19,11 +19,13 @@ GenEnv ==
     \/ cnt.relabels < 2 /\ (\E p, lbl \in Party : \E en \in OpenEntities : p # lbl /\ Sign(p, lbl, en))
           /\ cnt' = [cnt EXCEPT !.relabels = @ + 1]
     \/ cnt.late < 6 /\ (\E p \in Party : \E en \in OpenEntities : SignLate(p, en)) /\ cnt' = [cnt EXCEPT !.late = @ + 1]
+    \/ cnt.bad < 4 /\ (\E p, lbl \in Party : \E en \in OpenEntities : SignBad(p, lbl, en)) /\ cnt' = [cnt EXCEPT !.bad = @ + 1]
     \/ cnt.expires < 1 /\ (\E en \in OpenEntities : Expire(en)) /\ cnt' = [cnt EXCEPT !.expires = @ + 1]
     \/ sealing = "none" /\ cnt.restarts < 2 /\ Len(certs) >= 2 /\ Restart /\ cnt' = [cnt EXCEPT !.restarts = @ + 1]
     \/ sealing # "none" /\ cnt.crashes < 2 /\ Restart /\ cnt' = [cnt EXCEPT !.crashes = @ + 1]
+    \/ cnt.crashes < 2 /\ StopBeforeInsert /\ cnt' = [cnt EXCEPT !.crashes = @ + 1]
 GenNext == ((Tick \/ Internal) /\ UNCHANGED cnt) \/ GenEnv
-SpecH == /\ Init /\ hist = <<>> /\ cnt = [jumps |-> 0, relabels |-> 0, expires |-> 0, restarts |-> 0, crashes |-> 0, early |-> 0, late |-> 0]
+SpecH == /\ Init /\ hist = <<>> /\ cnt = [jumps |-> 0, relabels |-> 0, expires |-> 0, restarts |-> 0, crashes |-> 0, early |-> 0, late |-> 0, bad |-> 0]
          /\ [][GenNext /\ hist' = Append(hist, last')]_<<vars, hist, cnt>>
 GenPrint == Len(hist) = GenDepth => PrintT(<<"SCHED", ToJson([steps |-> hist, ncerts |-> Len(certs), narts |-> Cardinality(arts)])>>)
 =============================================================================
